@@ -66,6 +66,10 @@ structure St where
   hasState : Nat → Bool
   onDisk : Nat → Bool
   seen : Nat → Bool
+  /-- ghost: an upper bound of every height a header or block was ever written at; only bounds the (in Go unbounded)
+      "delete number entries above" loop of `reorg`.  It is raised by the mixed-history layer (`Model.ChainMixed`) where
+      headers run ahead of the blocks; in histories fed by full imports it stays 0 (the heads bound the index). -/
+  top : Nat := 0
 
 /-- result of an operation: the database afterwards and the error the call returned, if any -/
 structure Out where
@@ -179,11 +183,12 @@ def reorgApply (s : St) (fuel : Nat) (oldChain newChain : List Blk) : St :=
   { s2 with lookup := delLookups s2.lookup (txDifference deleted added) }
 
 /-- bound for the (unbounded) deletion loop of `reorg`: number entries exist at most up to the height of the header
-    head (which is the block head unless a rewind fell back below its target) -/
+    head (which is the block head unless a rewind fell back below its target), or up to `top` when headers were imported
+    on the same chain -/
 def reorgFuel (s : St) (old : Blk) : Nat :=
-  match s.store s.hhead with
-  | some hh => max old.number hh.number
-  | none => old.number
+  max s.top (match s.store s.hhead with
+    | some hh => max old.number hh.number
+    | none => old.number)
 
 /-- `BlockChain.reorg(oldBlock, newBlock)`.  The two "reduce whoever is higher" loops are written as two calls of
     `reduce` towards the lower of the two numbers (one of them returns immediately).  `none` = the Go function returns
